@@ -2,6 +2,7 @@ package main
 
 import (
 	"bytes"
+	"crypto/ed25519"
 	"crypto/rsa"
 	"fmt"
 	"math/big"
@@ -235,6 +236,87 @@ func runC18(c *Collector, r *Rng, thorough bool) {
 					return fmt.Sprint("alg", a, err)
 				},
 				func() string { return res(ck.MarshalCBOR()) },
+			}})
+		}
+		// a public key whose x coordinate was stored without its leading zero octets (a valid point with a tiny x), as a
+		// caller that strips them would build it: conversion and serialisation pad a copy, never the caller's parameters
+		{
+			ci := curves[i%len(curves)]
+			prm := ci.curve.Params()
+			for xv := int64(0); xv < 64; xv++ {
+				x := big.NewInt(xv)
+				rhs := new(big.Int).Exp(x, big.NewInt(3), prm.P)
+				rhs.Sub(rhs, new(big.Int).Mul(big.NewInt(3), x))
+				rhs.Add(rhs, prm.B)
+				rhs.Mod(rhs, prm.P)
+				y := new(big.Int).ModSqrt(rhs, prm.P)
+				if y == nil || !ci.curve.IsOnCurve(x, y) || xv == 0 {
+					continue
+				}
+				yb := y.Bytes()
+				sk := &cose.Key{Type: cose.KeyTypeEC2, Params: map[any]any{cose.KeyLabelEC2Curve: map[string]cose.Curve{"P-256": cose.CurveP256, "P-384": cose.CurveP384, "P-521": cose.CurveP521}[ci.name], cose.KeyLabelEC2X: x.Bytes(), cose.KeyLabelEC2Y: yb}}
+				vals = append(vals, shared{"key-with-short-coordinate/" + ci.name, func() string { return snapshotKey(sk) }, []func() string{
+					func() string {
+						v, err := sk.Verifier()
+						if err != nil {
+							return "err:" + errClass(err)
+						}
+						return fmt.Sprint("alg", v.Algorithm())
+					},
+					func() string { return res(sk.MarshalCBOR()) },
+					func() string {
+						_, err := sk.PublicKey()
+						return res(nil, err)
+					},
+					func() string {
+						_, err := sk.Signer()
+						return res(nil, err)
+					},
+				}})
+				break
+			}
+		}
+		// keys and messages whose values are held in other Go types than the decoder would produce (coordinates as
+		// ed25519.PublicKey or a named byte slice, crit entries as int / uint8): read-only operations convert copies
+		{
+			edPub, edPriv, _ := ed25519.GenerateKey(r)
+			type coord []byte
+			nk := &cose.Key{Type: cose.KeyTypeOKP, Params: map[any]any{cose.KeyLabelOKPCurve: cose.CurveEd25519, cose.KeyLabelOKPX: edPub, cose.KeyLabelOKPD: coord(edPriv.Seed())}}
+			vals = append(vals, shared{"key-with-named-byte-slices", func() string {
+				return snapshotKey(nk) + fmt.Sprintf("%T %T", nk.Params[cose.KeyLabelOKPX], nk.Params[cose.KeyLabelOKPD])
+			}, []func() string{
+				func() string {
+					_, err := nk.Verifier()
+					return res(nil, err)
+				},
+				func() string { return res(nk.MarshalCBOR()) },
+				func() string {
+					_, err := nk.Signer()
+					return res(nil, err)
+				},
+				func() string {
+					_, err := nk.PublicKey()
+					return res(nil, err)
+				},
+				func() string {
+					_, _, d := nk.OKP()
+					return hx(d)
+				},
+			}})
+			crit := []any{1000, uint8(200), "ext", int64(4)}
+			cm := &cose.Sign1Message{Headers: cose.Headers{Protected: cose.ProtectedHeader{cose.HeaderLabelAlgorithm: k.alg, cose.HeaderLabelCritical: crit, int64(1000): "a", int64(200): "b", "ext": "c", int64(4): []byte("kid")}, Unprotected: cose.UnprotectedHeader{}}, Payload: []byte("payload"), Signature: []byte{1, 2, 3}}
+			ccs := &cose.Countersignature{Headers: cose.Headers{Protected: cose.ProtectedHeader{cose.HeaderLabelAlgorithm: k.alg, cose.HeaderLabelCritical: []any{int32(77)}, int64(77): int64(1)}}, Signature: []byte{1, 2, 3}}
+			vals = append(vals, shared{"crit-in-other-integer-types/" + k.alg.String(), func() string {
+				return oSign1(cm) + oSigv((*cose.Signature)(ccs)) + fmt.Sprintf("%T %T %T %T", crit[0], crit[1], crit[2], crit[3])
+			}, []func() string{
+				func() string { return res(nil, cm.Verify(ext, vf)) },
+				func() string { return res(cm.MarshalCBOR()) },
+				func() string { return res(nil, ccs.Verify(vf, cm, ext)) },
+				func() string { return res(ccs.MarshalCBOR()) },
+				func() string {
+					l, err := cm.Headers.Protected.Critical()
+					return fmt.Sprint(len(l), err)
+				},
 			}})
 		}
 		// a key as it comes off the wire: key_ops with a repeated entry ([2, "verify", 1] decodes to verify, verify, sign),
@@ -508,6 +590,26 @@ func runC19(c *Collector, r *Rng, thorough bool) {
 		return wTag(18, -1, wArr(-1, wBstr(wMap(-1, wInt(1, -1), wInt(-7, -1)).Ser(), -1), wMap(-1, wInt(11, -1), inner), wBstr([]byte("p"), -1), wBstr([]byte{9}, -1))).Ser()
 	}
 	refIn := [][]byte{chain(1), chain(2), chain(3), unhex("d28443a10126a104426b31f64101"), unhex("d28440a1078343a10126a04101f64101")}
+	// messages carrying CWT claims whose dates lie just ahead (exp, nbf, iat one second from now, as integers and as
+	// floats, in either bucket), long past and far ahead: what they decode to does not depend on when they are decoded -
+	// the run ends no sooner than two seconds after it began, and decodes them again then
+	startedAt := time.Now()
+	{
+		soon := startedAt.Unix() + 1
+		for _, claims := range []*W{
+			wMap(-1, wInt(4, -1), wInt(soon, -1)), wMap(-1, wInt(5, -1), wInt(soon, -1)), wMap(-1, wInt(4, -1), wInt(soon, -1), wInt(5, -1), wInt(soon, -1), wInt(6, -1), wInt(soon, -1)),
+			wMap(-1, wInt(4, -1), wFloat64(float64(soon)+0.25)), wMap(-1, wInt(5, -1), wFloat64(float64(soon)+0.25)),
+			wMap(-1, wInt(4, -1), wInt(1, -1)), wMap(-1, wInt(5, -1), wInt(4102444800, -1)), wMap(-1, wInt(4, -1), wInt(-1, -1), wInt(5, -1), wFloat64(1e12)),
+		} {
+			pcontent := wMap(-1, wInt(1, -1), wInt(-7, -1), wInt(15, -1), claims.Clone()).Ser()
+			in1 := wTag(18, -1, wArr(-1, wBstr(pcontent, -1), wMap(-1), wBstr([]byte("p"), -1), wBstr([]byte{1}, -1))).Ser()
+			in2 := wTag(18, -1, wArr(-1, wBstr(wMap(-1, wInt(1, -1), wInt(-7, -1)).Ser(), -1), wMap(-1, wInt(15, -1), claims.Clone()), wBstr([]byte("p"), -1), wBstr([]byte{1}, -1))).Ser()
+			refIn = append(refIn, in1, in2)
+			decodeCase(c, "cwt-dates", "DSign1", in1)
+			decodeCase(c, "cwt-dates", "DSign1", in2)
+		}
+	}
+	c19BigFailingInputs(c)
 	var refWant []string
 	for _, in := range refIn {
 		refWant = append(refWant, plainDecode("DSign1", in))
@@ -531,7 +633,12 @@ func runC19(c *Collector, r *Rng, thorough bool) {
 		c.Eval("global-history/chain-depth", fmt.Sprint(depth), true)
 		refCheck(fmt.Sprintf("after decoding chains of %d nested countersignatures", depth))
 	}
-	defer refCheck("at the end of the run")
+	defer func() {
+		if wait := 2*time.Second - time.Since(startedAt); wait > 0 {
+			time.Sleep(wait)
+		}
+		refCheck("at the end of the run (two seconds or more after its start)")
+	}()
 	// ... nor on what other goroutines decode at the same time (each into its own variables): child process
 	{
 		var concIn []string
@@ -982,4 +1089,41 @@ func polluteHeadersDepth(h *cose.Headers, depth int) {
 		h.Unprotected[polluteLabel] = "written by the application"
 	}
 	polluteBytes(h.RawProtected, h.RawUnprotected)
+}
+
+// c19BigFailingInputs: a destination that holds a message, then a refused input of 1 MiB and more (a valid message
+// cut short, with an octet appended, with its signature emptied): the destination is exactly what it was.
+func c19BigFailingInputs(c *Collector) {
+	small := unhex("d28443a10126a104426b31" + "45" + "68656c6c6f" + "420102")
+	for _, size := range []int{1 << 16, 1<<20 - 4096, 1 << 20, 1<<20 + 4096, 3 << 20} {
+		payload := bytes.Repeat([]byte{0x61}, size)
+		valid := wTag(18, -1, wArr(-1, wBstr(wMap(-1, wInt(1, -1), wInt(-7, -1)).Ser(), -1), wMap(-1), wBstr(payload, -1), wBstr([]byte{1, 2}, -1))).Ser()
+		emptySig := wTag(18, -1, wArr(-1, wBstr(wMap(-1, wInt(1, -1), wInt(-7, -1)).Ser(), -1), wMap(-1), wBstr(payload, -1), wBstr(nil, -1))).Ser()
+		badCrit := wTag(18, -1, wArr(-1, wBstr(wMap(-1, wInt(1, -1), wInt(-7, -1), wInt(2, -1), wArr(-1, wInt(99, -1))).Ser(), -1), wMap(-1), wBstr(payload, -1), wBstr([]byte{1, 2}, -1))).Ser()
+		for name, bad := range map[string][]byte{"truncated": valid[:len(valid)-1], "trailing octet": append(append([]byte{}, valid...), 0), "empty signature": emptySig, "crit names an absent label": badCrit} {
+			for _, tagged := range []bool{true, false} {
+				var m cose.Sign1Message
+				in0, inBad := small, bad
+				var dec func([]byte) error
+				if tagged {
+					dec = m.UnmarshalCBOR
+				} else {
+					in0, inBad = small[1:], bad[1:]
+					dec = (*cose.UntaggedSign1Message)(&m).UnmarshalCBOR
+				}
+				if dec(append([]byte{}, in0...)) != nil {
+					continue
+				}
+				before := oSign1(&m)
+				err := dec(append([]byte{}, inBad...))
+				c.Eval("big-failing-input", fmt.Sprint(size, name, tagged), true)
+				if err == nil {
+					continue
+				}
+				if after := oSign1(&m); after != before {
+					c.Fail("C19/failed-decode-modified-destination", fmt.Sprintf("a refused input of %d octets (%s) left the destination changed: it held %s, now %s", len(inBad), name, trunc(before, 200), trunc(after, 200)), map[string]any{"size": len(inBad), "fault": name, "tagged": tagged})
+				}
+			}
+		}
+	}
 }
